@@ -117,7 +117,7 @@ func main() {
 		code := 0
 		var caught []string
 		for _, id := range ids {
-			if rc := runs[id].Finish(*out, 0, registry[id].Explanation, registry[id].Assumptions); rc != 0 {
+			if rc := runs[id].Finish(*out, 0, registry[id].Explanation+ruleList(registry[id]), registry[id].Assumptions); rc != 0 {
 				code = 1
 				caught = append(caught, id)
 			}
@@ -173,5 +173,15 @@ func main() {
 		}
 		r.cur = nil
 	}
-	os.Exit(r.Finish(*out, seed, def.Explanation, def.Assumptions))
+	os.Exit(r.Finish(*out, seed, def.Explanation+ruleList(def), def.Assumptions))
+}
+
+// ruleList names the rules a property's check consists of (several are shared between properties: each is a necessary
+// condition of every property it is listed under).
+func ruleList(d *propDef) string {
+	var ns []string
+	for _, r := range d.Rules {
+		ns = append(ns, r.Name)
+	}
+	return " || Rules evaluated by this check (a rule shared with another property is a necessary condition of both): " + strings.Join(ns, ", ") + "."
 }
